@@ -55,27 +55,26 @@ func c13ViewRootRefused(c *Ctx) {
 				}
 				n++
 				k++
-				refused := false
-				for _, ge := range guardingEdges(call.Instr.Block()) {
-					cv, pos := condPolarity(ge.If.Cond)
-					bo, ok := cv.(*ssa.BinOp)
-					if !ok || (bo.Op != token.EQL && bo.Op != token.NEQ) {
-						continue
-					}
-					var other ssa.Value
-					if isConstString(bo.Y, ".") {
-						other = bo.X
-					} else if isConstString(bo.X, ".") {
-						other = bo.Y
-					} else {
-						continue
-					}
-					if stripConv(other) != arg && !dependsOnValue(arg, stripConv(other)) {
-						continue
-					}
-					holds := ge.Branch == pos
-					if (bo.Op == token.EQL && !holds) || (bo.Op == token.NEQ && holds) {
-						refused = true
+				refused := c13KnownNotDot(call.Instr.Block(), arg)
+				// the path comes out of a helper of the package that refuses "." before it returns successfully
+				if ex, ok := arg.(*ssa.Extract); ok && !refused {
+					if hc, ok := ex.Tuple.(*ssa.Call); ok {
+						if h := hc.Call.StaticCallee(); h != nil && h.Pkg == f.Pkg && len(h.Blocks) > 0 {
+							okAll, nRet := true, 0
+							for _, r := range returnsOf(h) {
+								if len(r.Results) < 2 || ex.Index >= len(r.Results) {
+									continue
+								}
+								if !isNilConst(stripConv(spilledResult(r, r.Results[len(r.Results)-1]))) {
+									continue // an error return
+								}
+								nRet++
+								if !c13KnownNotDot(r.Block(), stripConv(spilledResult(r, r.Results[ex.Index]))) {
+									okAll = false
+								}
+							}
+							refused = okAll && nRet > 0
+						}
 					}
 				}
 				c.Ob(rule, fmt.Sprintf("%s/MapPath#%d", ssaFuncName(f), k), call.Pos(), refused, true, "the path handed to MapPath is known not to be \".\" (the view's root): %v", refused)
@@ -85,4 +84,32 @@ func c13ViewRootRefused(c *Ctx) {
 	if n == 0 {
 		c.Fail(rule, "anchor", token.NoPos, "no bucket method calling Mapper.MapPath found")
 	}
+}
+
+// c13KnownNotDot: block b is reached only over an edge on which arg (or a value it derives from) compared unequal to ".".
+func c13KnownNotDot(b *ssa.BasicBlock, arg ssa.Value) bool {
+	refused := false
+	for _, ge := range guardingEdges(b) {
+		cv, pos := condPolarity(ge.If.Cond)
+		bo, ok := cv.(*ssa.BinOp)
+		if !ok || (bo.Op != token.EQL && bo.Op != token.NEQ) {
+			continue
+		}
+		var other ssa.Value
+		if isConstString(bo.Y, ".") {
+			other = bo.X
+		} else if isConstString(bo.X, ".") {
+			other = bo.Y
+		} else {
+			continue
+		}
+		if stripConv(other) != arg && !dependsOnValue(arg, stripConv(other)) {
+			continue
+		}
+		holds := ge.Branch == pos
+		if (bo.Op == token.EQL && !holds) || (bo.Op == token.NEQ && holds) {
+			refused = true
+		}
+	}
+	return refused
 }
